@@ -7,6 +7,7 @@ from __future__ import annotations
 import ast
 
 from ..core import AnalysisError, dotted, enclosing_function
+from ..flow import Exhaustion, copy_env, subst
 
 level = "other"
 
@@ -225,9 +226,19 @@ def cache_discipline(chk, repo, P, full=False):
                 continue
             ok, why = True, ""
             if fname == "__init__":
-                ok = write == "assign" and isinstance(rhs, ast.List) \
-                    and not rhs.elts
-                why = "the constructor must start with an empty cache"
+                # empty, or pre-filled while the source iterator is replaced
+                # by an empty one (the list still denotes the same items)
+                emptied = any(
+                    isinstance(a, ast.Assign) and any(
+                        is_self_attr(t, SOURCE) for t in a.targets)
+                    and ast.unparse(a.value).replace(" ", "") in (
+                        "iter(())", "iter([])", "iter('')", 'iter("")')
+                    for a in ast.walk(methods["__init__"]))
+                ok = write == "assign" and (
+                    (isinstance(rhs, ast.List) and not rhs.elts) or emptied)
+                why = ("the constructor must start with an empty cache (or "
+                       "replace the source by an empty iterator when it "
+                       "pre-fills the cache)")
             elif fname == "__next__":
                 ok = write == "append"
                 why = "__next__ may only append"
@@ -283,21 +294,20 @@ def cache_discipline(chk, repo, P, full=False):
                    sample={"method": name})
 
     # ---- G8: the cached count is not the length unless exhausted --------------------
+    # (must-analysis "the source is exhausted here", vystatic.flow.Exhaustion)
+    exhausting: set[str] = set()
+    for _ in range(4):
+        grown = {name for name, fn in methods.items()
+                 if name not in ("__init__", "__next__")
+                 and Exhaustion(fn, exhausting).exhausts_on_return()}
+        if grown == exhausting:
+            break
+        exhausting = grown
+    chk.info(P + ".cached-count-is-not-length", "LazyList",
+             "methods that exhaust the source on every normal exit: "
+             + ", ".join(sorted(exhausting)))
     for name, fn in methods.items():
-        exhausted_lines = []
-        for n in ast.walk(fn):
-            if isinstance(n, ast.Call) and (dotted(n.func) or "") in (
-                    "self.listify", "len") and (
-                    dotted(n.func) == "self.listify" or (
-                        n.args and isinstance(n.args[0], ast.Name)
-                        and n.args[0].id == "self")):
-                exhausted_lines.append(n.lineno)
-            if isinstance(n, ast.While) and isinstance(
-                    n.test, ast.Constant) and n.test.value is True and any(
-                    isinstance(h, ast.ExceptHandler) and "StopIteration" in
-                    ast.unparse(h.type or ast.Constant(value=""))
-                    for h in ast.walk(n)):
-                exhausted_lines.append(n.lineno)
+        ex = Exhaustion(fn, exhausting)
         for n in ast.walk(fn):
             if not (isinstance(n, ast.Call) and dotted(n.func) == "len"
                     and n.args and is_self_attr(n.args[0], CACHE)):
@@ -308,12 +318,16 @@ def cache_discipline(chk, repo, P, full=False):
                 isinstance(par, ast.Return)
             if not as_length:
                 continue
-            ok = any(ln < n.lineno for ln in exhausted_lines)
+            st = n
+            while not isinstance(st, ast.stmt):
+                st = st._parent
+            ok = bool(ex.at.get(id(st)))
             chk.ob(P + ".cached-count-is-not-length",
                    f"LazyList.{name}:{ast.unparse(par)[:50]}", ok,
                    "len(self.generated) is used as the length of the list "
-                   "without exhausting the source first: the answer depends "
-                   "on which observations were made before", F, n.lineno,
+                   "on a path where the source is not known to be exhausted: "
+                   "the answer depends on which observations were made "
+                   "before", F, n.lineno,
                    witness="LazyList([0,1,2]) == [0,1] on a fresh list",
                    sample={"method": name})
 
@@ -409,8 +423,9 @@ def cache_discipline(chk, repo, P, full=False):
     loops = [n for n in ast.walk(hi) if isinstance(n, ast.For)
              and isinstance(n.iter, ast.Call) and dotted(n.iter.func) == "range"
              and len(n.iter.args) == 1]
-    got = linear_form(loops[0].iter.args[0], hi.args.args[1].arg) \
-        if loops else None
+    hi_env = copy_env(hi)
+    got = linear_form(subst(loops[0].iter.args[0], hi_env),
+                      hi.args.args[1].arg) if loops else None
     chk.ob(P + ".has-ind-pull-count", "LazyList.has_ind", got == want,
            "has_ind(ind) must pull exactly ind - len(generated) + 1 more "
            f"items before answering (found {got}): one fewer truncates every "
@@ -421,8 +436,9 @@ def cache_discipline(chk, repo, P, full=False):
     for n in ast.walk(hi):
         if isinstance(n, ast.If) and isinstance(n.test, ast.Compare) and len(
                 n.test.ops) == 1:
-            l = linear_form(n.test.left, hi.args.args[1].arg)
-            r = linear_form(n.test.comparators[0], hi.args.args[1].arg)
+            l = linear_form(subst(n.test.left, hi_env), hi.args.args[1].arg)
+            r = linear_form(subst(n.test.comparators[0], hi_env),
+                            hi.args.args[1].arg)
             if l is not None and r is not None:
                 diff = {k: l.get(k, 0) - r.get(k, 0) for k in set(l) | set(r)}
                 diff = {k: v for k, v in diff.items() if v}
